@@ -370,6 +370,20 @@ def rule_closest_place(ck):
         dup_push = [p for p in pushes if p.bb in reach and f.dominates(c0.bb, p.bb) and not any(is_iter_next(x) and x.bb in f.reach_from(f.succ(c0.bb), avoid={p.bb}) and p.bb in f.after(x.bb) for x in f.calls())]
         ok = f.dominates(c0.bb, ins[0].bb) and not [p for p in pushes if f.dominates(ins[0].bb, p.bb) is False and f.dominates(c0.bb, p.bb) and p.bb in cut_edges_reach(f, f.succ(c0.bb), {x.bb for x in f.calls() if is_iter_next(x)}, cuts)]
     ck.ob("mpt.closest_place", "one-place-per-subprogram", ok, "", f.loc())
+    # index spaces: the argument of BsUnit::find_place_by_idx is a line-row index, i.e. an element read out of
+    # the per-file index list (Index / get on it) on every path, never a position counter of that list
+    fp = [c for c in f.calls() if c.name.endswith("BsUnit::find_place_by_idx")]
+    ck.floor("mpt.closest_place", "find_place_by_idx calls", len(fp), 2)
+    for k, c in enumerate(fp):
+        e = expr_of(f, c.args[1])
+        alts = e[1] if e[0] == "multi" else [e]
+
+        def from_list(x):
+            names = expr_calls(x)
+            return any(re.search(r"Index<.*>>::index$|slice::<impl \[T\]>::get$|\[T\]>::get$|Iterator.*::next$", n) for n in names)
+
+        bad = [expr_str(x, 5) for x in alts if not from_list(x)]
+        ck.ob("mpt.closest_place", f"find_place_by_idx#{k}/row-index-from-file-index-list", not bad, f"row index may be {bad} (a position in the per-file list, not a line-row index)", f.loc(c.bb), what="find_closest_place builds a place from a list position instead of a line-row index")
     key = [rv for _, _, _, rv, _ in f.assigns() if rv["r"] == "agg" and rv["name"].endswith("find_closest_place::Key")]
     ok = bool(key) and set(key[0]["fields"]) == {"name", "range"}
     ck.ob("mpt.closest_place", "subprogram-key=(name,ranges)", ok, f"{key[0]['fields'] if key else None}", f.loc())
